@@ -18,7 +18,7 @@
    BatchStart events, which is what the harness compares with the real code. *)
 From Coq Require Import List Arith NArith Bool.
 Import ListNotations.
-Require Import Aiuti.Case_Batcher Aiuti.Case_Batcher_Sound Aiuti.Case_Batcher_Basic Aiuti.BatcherSim Aiuti.Case_Batcher_C10 Aiuti.Case_Batcher_Sound04 Aiuti.Case_Batcher_Sound10 Aiuti.Batcher Aiuti.BatcherLimits Aiuti.BatcherTime Aiuti.BatcherOrder.
+Require Import Aiuti.Case_Batcher Aiuti.Case_Batcher_Sound Aiuti.Case_Batcher_Basic Aiuti.BatcherSim Aiuti.Case_Batcher_C10 Aiuti.Case_Batcher_Full Aiuti.Case_Batcher_Sound04 Aiuti.Case_Batcher_Sound10 Aiuti.Batcher Aiuti.BatcherLimits Aiuti.BatcherTime Aiuti.BatcherOrder.
 
 (* Every batch handed to the batch function is non-empty and no larger than
    lim = the largest max_batch_size that was in force when one of its items
@@ -193,13 +193,25 @@ Print Assumptions monitor_basic_sound.
    canonical trace of the model, for every configuration and every such event list.  The
    model-side facts are exactly the theorems above (LInv, Fifo, TInv, OInv) plus WB
    (BatcherWithin.v); the proof (Case_Batcher_C10.v) extends the simulation of
-   Case_Batcher_C11.v.  PARTIAL only in that Chain events are excluded. *)
+   Case_Batcher_C11.v.  Chain events are excluded here; [monitor_complete] below has them. *)
 Theorem monitor_complete_nochain :
   forall c evs w, cfg_ok c -> (0 < c_bt c)%N -> Forall ev_ok evs ->
   forallb (fun e => negb (is_chain e)) evs = true ->
   ok_C10 (BCase c evs (map canon (fst (run c evs))) w) = true.
 Proof. exact ok_C10_complete. Qed.
 Print Assumptions monitor_complete_nochain.
+
+(* COMPLETENESS of the FULL monitor ok_C10 on ALL event lists, Chain events included
+   (batch_timeout > 0): also when resumed tasks call again inside a batch-function event —
+   their requests join the open batch at that instant with the limit then in force, may
+   fill it and make it start in the same step (start tick = spawn tick, also when the
+   event is a yield, which frees no slot) — the monitor accepts the canonical trace of the
+   model, for every configuration and every event list.  Proof: Case_Batcher_Full.v. *)
+Theorem monitor_complete :
+  forall c evs w, cfg_ok c -> (0 < c_bt c)%N -> Forall ev_ok evs ->
+  ok_C10 (BCase c evs (map canon (fst (run c evs))) w) = true.
+Proof. exact ok_C10_complete_all. Qed.
+Print Assumptions monitor_complete.
 
 (* Model-free SOUNDNESS of the state-dependent conjuncts of ok_C10 (script and observed trace
    only): if ok_C10 accepts, then at every macro step every observed BatchStart — judged in the
